@@ -67,3 +67,9 @@ claim("C18",
       "CoolProp is the trusted property source (tolerances 1e-7..1e-6 relative). Findings for retrograde fluids and pseudo-pure blends are known findings matched by independently computed cause predicates (throttle outlet superheated / wet compressor discharge / pseudo-pure surrogate).",
       "bounded-exhaustive operating-point enumeration + exhaustive request-order histories on the real cycle object",
       "DESIGN.md section 4 C18")
+
+claim("C09",
+      "Every multiset of 2-3 (quick) / 2-4 (thorough) lattice streams x every partition into 2-3/4 zones x 4 utility sets (defaults; intermediate 'Both' level inside the range; one that cannot help; two intermediate levels) x label form (flat, nested, explicit zone tree) through pinch_analysis_service: Total Process = sum of the zones' DI targets value by value and utility by utility, DI_site <= TS <= TZ for Qh and Qc, Qr_TS = Qr_TZ + (Qh_TZ - Qh_TS), serialised records equal the target objects.",
+      "Tolerance 1e-6 of the total duty. The run counts how many cases actually show inter-zone recovery (TS < TZ) so that the bracketing is not checked vacuously.",
+      "bounded-exhaustive input/configuration enumeration on the real service with algebraic oracles",
+      "DESIGN.md section 4 C09")
